@@ -112,4 +112,400 @@ theorem comp_assoc (a b c : Op) : comp (comp a b) c = comp a (comp b c) := by
   · simp only [comp]; exact assoc_t ..
   · simp only [comp]; exact assoc_t ..
 
+/-! ### list helpers -/
+
+theorem all_range {n : Nat} {f : Nat → Bool} : (List.range n).all f = true ↔ ∀ i, i < n → f i = true := by
+  simp [List.all_eq_true, List.mem_range]
+
+theorem getOp_of_lt {G : List Op} {i : Nat} (h : i < G.length) : getOp G i = G[i] := by
+  simp [getOp, List.getD_eq_getElem?_getD, List.getElem?_eq_getElem h]
+
+theorem getOp_mem {G : List Op} {i : Nat} (h : i < G.length) : getOp G i ∈ G := by
+  rw [getOp_of_lt h]; exact List.getElem_mem h
+
+theorem exists_getOp_of_mem {G : List Op} {a : Op} (h : a ∈ G) : ∃ i, i < G.length ∧ getOp G i = a := by
+  obtain ⟨i, hi, rfl⟩ := List.getElem_of_mem h
+  exact ⟨i, hi, getOp_of_lt hi⟩
+
+theorem pairwiseNe_map_pairwise {α : Type} (f : α → Nat) :
+    ∀ (l : List α), pairwiseNe (l.map f) = true → l.Pairwise (fun a b => f a ≠ f b)
+  | [], _ => List.Pairwise.nil
+  | a :: l, h => by
+    simp only [List.map_cons, pairwiseNe, Bool.and_eq_true, List.all_eq_true, List.mem_map, bne_iff_ne] at h
+    refine List.Pairwise.cons ?_ (pairwiseNe_map_pairwise f l h.2)
+    intro b hb
+    exact h.1 (f b) ⟨b, hb, rfl⟩
+
+theorem pairwiseNe_map_nodup {α : Type} (f : α → Nat) (l : List α) (h : pairwiseNe (l.map f) = true) :
+    l.Nodup :=
+  (pairwiseNe_map_pairwise f l h).imp (fun hne e => hne (congrArg f e))
+
+/-! ### groups of operations modulo lattice translations -/
+
+/-- `G` (operations with translations reduced to `[0,24)` 24ths) is a group under `comp`, i.e. composition
+modulo lattice translations.  Together with `comp_assoc`, `comp_one`, `one_comp` these are the group axioms. -/
+structure IsGroupModLattice (G : List Op) : Prop where
+  /-- the identity is present -/
+  one_mem : one ∈ G
+  /-- closed under composition -/
+  closed : ∀ a ∈ G, ∀ b ∈ G, comp a b ∈ G
+  /-- inverses are present -/
+  inv : ∀ a ∈ G, ∃ b ∈ G, comp a b = one
+  /-- no duplicates -/
+  nodup : G.Nodup
+  /-- all translations are reduced (so that `one` is a two-sided unit on `G`) -/
+  reduced : ∀ a ∈ G, Reduced a
+
+/-- in a group modulo the lattice a right inverse is also a left inverse -/
+theorem IsGroupModLattice.inv_left {G : List Op} (hG : IsGroupModLattice G) {a b : Op} (ha : a ∈ G) (hb : b ∈ G)
+    (hab : comp a b = one) : comp b a = one := by
+  obtain ⟨c, hc, hbc⟩ := hG.inv b hb
+  have hba : comp b a ∈ G := hG.closed b hb a ha
+  calc comp b a = comp (comp b a) one := (comp_one (hG.reduced _ hba)).symm
+    _ = comp (comp b a) (comp b c) := by rw [hbc]
+    _ = comp b (comp (comp a b) c) := by simp only [comp_assoc]
+    _ = comp b (comp one c) := by rw [hab]
+    _ = comp b c := by rw [one_comp (hG.reduced c hc)]
+    _ = one := hbc
+
+/-- two-sided inverses -/
+theorem IsGroupModLattice.inv' {G : List Op} (hG : IsGroupModLattice G) :
+    ∀ a ∈ G, ∃ b ∈ G, comp a b = one ∧ comp b a = one := by
+  intro a ha
+  obtain ⟨b, hb, hab⟩ := hG.inv a ha
+  exact ⟨b, hb, hab, hG.inv_left ha hb hab⟩
+
+/-! ### Prop-level reading of the certificate checks -/
+
+/-- what the certificate checks say, quantified over indices -/
+structure CertFacts (G : List Op) (c : Cert) : Prop where
+  prod : ∀ i, i < G.length → ∀ k, k < c.gens.length →
+    ∃ j, j < G.length ∧ comp (getOp G i) (getOp G (c.gens.getD k 0)) = getOp G j
+  id_lt : c.idIdx < G.length
+  id_eq : getOp G c.idIdx = one
+  tree : ∀ i, i < G.length → i = c.idIdx ∨
+    ∃ p, p < G.length ∧ ∃ k, k < c.gens.length ∧ c.depth.getD p 0 < c.depth.getD i 0 ∧
+      comp (getOp G p) (getOp G (c.gens.getD k 0)) = getOp G i
+  inv : ∀ i, i < G.length → ∃ j, j < G.length ∧ comp (getOp G i) (getOp G j) = one
+
+theorem checkProd_sound {G : List Op} {c : Cert} (h : checkProd G c = true) :
+    ∀ i, i < G.length → ∀ k, k < c.gens.length →
+      ∃ j, j < G.length ∧ comp (getOp G i) (getOp G (c.gens.getD k 0)) = getOp G j := by
+  simp only [checkProd, all_range, Bool.and_eq_true, decide_eq_true_eq, opEq_iff] at h
+  intro i hi k hk
+  exact ⟨_, (h i hi).2 k hk⟩
+
+theorem checkTree_sound {G : List Op} {c : Cert} (h : checkTree G c = true) :
+    c.idIdx < G.length ∧ getOp G c.idIdx = one ∧
+    ∀ i, i < G.length → i = c.idIdx ∨
+      ∃ p, p < G.length ∧ ∃ k, k < c.gens.length ∧ c.depth.getD p 0 < c.depth.getD i 0 ∧
+        comp (getOp G p) (getOp G (c.gens.getD k 0)) = getOp G i := by
+  simp only [checkTree, all_range, Bool.and_eq_true, Bool.or_eq_true, decide_eq_true_eq, opEq_iff,
+    beq_iff_eq] at h
+  obtain ⟨⟨⟨⟨⟨h1, h2⟩, _⟩, _⟩, _⟩, h6⟩ := h
+  refine ⟨h1, h2, ?_⟩
+  intro i hi
+  rcases h6 i hi with h | ⟨⟨⟨hp, hk⟩, hd⟩, he⟩
+  · exact Or.inl h
+  · exact Or.inr ⟨_, hp, _, hk, hd, he⟩
+
+theorem checkInv_sound {G : List Op} {c : Cert} (h : checkInv G c = true) :
+    ∀ i, i < G.length → ∃ j, j < G.length ∧ comp (getOp G i) (getOp G j) = one := by
+  simp only [checkInv, all_range, Bool.and_eq_true, decide_eq_true_eq, opEq_iff] at h
+  intro i hi
+  exact ⟨_, h.2 i hi⟩
+
+theorem certFacts_of_checks {G : List Op} {c : Cert} (hp : checkProd G c = true) (ht : checkTree G c = true)
+    (hi : checkInv G c = true) : CertFacts G c :=
+  { prod := checkProd_sound hp
+    id_lt := (checkTree_sound ht).1
+    id_eq := (checkTree_sound ht).2.1
+    tree := (checkTree_sound ht).2.2
+    inv := checkInv_sound hi }
+
+/-- closure from the certificate: every element is a product of generators along the spanning tree, and the
+set is closed under right multiplication by each generator -/
+theorem CertFacts.closed_idx {G : List Op} {c : Cert} (hc : CertFacts G c) (hred : ∀ a ∈ G, Reduced a) :
+    ∀ d j, j < G.length → c.depth.getD j 0 < d →
+      ∀ i, i < G.length → ∃ m, m < G.length ∧ comp (getOp G i) (getOp G j) = getOp G m := by
+  intro d
+  induction d with
+  | zero => intro j _ h; exact absurd h (Nat.not_lt_zero _)
+  | succ d ih =>
+    intro j hj hd i hi
+    rcases hc.tree j hj with rfl | ⟨p, hp, k, hk, hdp, he⟩
+    · refine ⟨i, hi, ?_⟩
+      rw [hc.id_eq, comp_one (hred _ (getOp_mem hi))]
+    · obtain ⟨m, hm, hme⟩ := ih p hp (by omega) i hi
+      obtain ⟨m', hm', hme'⟩ := hc.prod m hm k hk
+      refine ⟨m', hm', ?_⟩
+      rw [← he, ← comp_assoc, hme, hme']
+
+theorem CertFacts.isGroup {G : List Op} {c : Cert} (hc : CertFacts G c) (hred : ∀ a ∈ G, Reduced a)
+    (hnd : G.Nodup) : IsGroupModLattice G where
+  one_mem := hc.id_eq ▸ getOp_mem hc.id_lt
+  closed := by
+    intro a ha b hb
+    obtain ⟨i, hi, rfl⟩ := exists_getOp_of_mem ha
+    obtain ⟨j, hj, rfl⟩ := exists_getOp_of_mem hb
+    obtain ⟨m, hm, hme⟩ := hc.closed_idx hred _ j hj (Nat.lt_succ_self _) i hi
+    rw [hme]; exact getOp_mem hm
+  inv := by
+    intro a ha
+    obtain ⟨i, hi, rfl⟩ := exists_getOp_of_mem ha
+    obtain ⟨j, hj, he⟩ := hc.inv i hi
+    exact ⟨_, getOp_mem hj, he⟩
+  nodup := hnd
+  reduced := hred
+
+/-! ### snapping of the tabulated decimals, entries -/
+
+/-- the tabulated decimal `t` (micro-units) is within 5·10⁻⁷ of `snap t / 24`, and `snap t ∈ [0,24)` -/
+def SnapOk (t : Int) : Prop :=
+  24 * t - 1000000 * snap t ≤ 12 ∧ 1000000 * snap t - 24 * t ≤ 12 ∧ 0 ≤ snap t ∧ snap t < 24
+
+theorem snapOk_iff {t : Int} : snapOk t = true ↔ SnapOk t := by
+  simp [snapOk, SnapOk, and_assoc]
+
+/-- all nine rotation entries are in `{-1, 0, 1}` -/
+def EntriesOk (a : Op) : Prop :=
+  (a.r11 = -1 ∨ a.r11 = 0 ∨ a.r11 = 1) ∧ (a.r12 = -1 ∨ a.r12 = 0 ∨ a.r12 = 1) ∧
+  (a.r13 = -1 ∨ a.r13 = 0 ∨ a.r13 = 1) ∧ (a.r21 = -1 ∨ a.r21 = 0 ∨ a.r21 = 1) ∧
+  (a.r22 = -1 ∨ a.r22 = 0 ∨ a.r22 = 1) ∧ (a.r23 = -1 ∨ a.r23 = 0 ∨ a.r23 = 1) ∧
+  (a.r31 = -1 ∨ a.r31 = 0 ∨ a.r31 = 1) ∧ (a.r32 = -1 ∨ a.r32 = 0 ∨ a.r32 = 1) ∧
+  (a.r33 = -1 ∨ a.r33 = 0 ∨ a.r33 = 1)
+
+theorem entriesOk_iff {a : Op} : entriesOk a = true ↔ EntriesOk a := by
+  simp [entriesOk, EntriesOk, and_assoc, or_assoc]
+
+/-- when the snapped value is in range the `% 24` of `ofSg` is the identity -/
+theorem ofSg_t_eq {o : SgOp} (h : SnapOk o.t1 ∧ SnapOk o.t2 ∧ SnapOk o.t3) :
+    (ofSg o).t1 = snap o.t1 ∧ (ofSg o).t2 = snap o.t2 ∧ (ofSg o).t3 = snap o.t3 := by
+  simp only [SnapOk, ofSg] at *; omega
+
+theorem opsOf_reduced (t : SgTable) : ∀ a ∈ opsOf t, Reduced a := by
+  intro a ha
+  simp only [opsOf, List.mem_map] at ha
+  obtain ⟨o, _, rfl⟩ := ha
+  exact ofSg_reduced o
+
+/-! ### soundness of `checkGroup` -/
+
+/-- Soundness of the Boolean group check: for ANY certificate `c` accepted by `checkGroup`, the table
+operations (translations snapped to 24ths) form a group modulo lattice translations, there are exactly `nsymop`
+of them, every tabulated translation decimal is within 5·10⁻⁷ of a 24th in `[0,1)`, and all rotation entries are
+in `{-1,0,1}`. -/
+theorem checkGroup_sound (t : SgTable) (c : Cert) (h : checkGroup t c = true) :
+    IsGroupModLattice (opsOf t) ∧ (opsOf t).length = t.nsymop ∧
+    (∀ o ∈ t.ops, SnapOk o.t1 ∧ SnapOk o.t2 ∧ SnapOk o.t3) ∧
+    (∀ a ∈ opsOf t, EntriesOk a) := by
+  simp only [checkGroup, Bool.and_eq_true, beq_iff_eq] at h
+  obtain ⟨⟨⟨⟨⟨⟨⟨hlen, hsnap⟩, hent⟩, hne⟩, hgens⟩, hprod⟩, htree⟩, hinv⟩ := h
+  refine ⟨?_, hlen, ?_, ?_⟩
+  · exact (certFacts_of_checks hprod htree hinv).isGroup (opsOf_reduced t) (pairwiseNe_map_nodup key _ hne)
+  · intro o ho
+    simp only [allSnapOk, List.all_eq_true, Bool.and_eq_true, snapOk_iff] at hsnap
+    have := hsnap o ho
+    exact ⟨this.1.1, this.1.2, this.2⟩
+  · intro a ha
+    simp only [List.all_eq_true] at hent
+    exact entriesOk_iff.1 (hent a ha)
+
+/-! ### keys are injective on operations with entries in `{-1,0,1}` -/
+
+private theorem digit3 {x y x' y' : Nat} (hy : y < 3) (hy' : y' < 3) (h : x * 3 + y = x' * 3 + y') :
+    x = x' ∧ y = y' := by omega
+
+private theorem digit24 {x y x' y' : Nat} (hy : y < 24) (hy' : y' < 24) (h : x * 24 + y = x' * 24 + y') :
+    x = x' ∧ y = y' := by omega
+
+private theorem dig_lt {x : Int} (h : x = -1 ∨ x = 0 ∨ x = 1) : (x + 1).toNat < 3 := by omega
+
+private theorem dig_inj {x y : Int} (hx : x = -1 ∨ x = 0 ∨ x = 1) (hy : y = -1 ∨ y = 0 ∨ y = 1)
+    (h : (x + 1).toNat = (y + 1).toNat) : x = y := by omega
+
+private theorem toNat_inj {x y : Int} (hx : 0 ≤ x) (hy : 0 ≤ y) (h : x.toNat = y.toNat) : x = y := by omega
+
+private theorem toNat_lt24 {x : Int} (hx : x < 24) : x.toNat < 24 := by omega
+
+theorem key_inj {a b : Op} (ha : EntriesOk a) (hb : EntriesOk b) (ra : Reduced a) (rb : Reduced b)
+    (h : key a = key b) : a = b := by
+  obtain ⟨a1, a2, a3, a4, a5, a6, a7, a8, a9⟩ := ha
+  obtain ⟨b1, b2, b3, b4, b5, b6, b7, b8, b9⟩ := hb
+  obtain ⟨⟨p1, q1⟩, ⟨p2, q2⟩, ⟨p3, q3⟩⟩ := ra
+  obtain ⟨⟨p1', q1'⟩, ⟨p2', q2'⟩, ⟨p3', q3'⟩⟩ := rb
+  simp only [key] at h
+  obtain ⟨h, e3⟩ := digit24 (toNat_lt24 q3) (toNat_lt24 q3') h
+  obtain ⟨h, e2⟩ := digit24 (toNat_lt24 q2) (toNat_lt24 q2') h
+  obtain ⟨h, e1⟩ := digit24 (toNat_lt24 q1) (toNat_lt24 q1') h
+  obtain ⟨h, d9⟩ := digit3 (dig_lt a9) (dig_lt b9) h
+  obtain ⟨h, d8⟩ := digit3 (dig_lt a8) (dig_lt b8) h
+  obtain ⟨h, d7⟩ := digit3 (dig_lt a7) (dig_lt b7) h
+  obtain ⟨h, d6⟩ := digit3 (dig_lt a6) (dig_lt b6) h
+  obtain ⟨h, d5⟩ := digit3 (dig_lt a5) (dig_lt b5) h
+  obtain ⟨h, d4⟩ := digit3 (dig_lt a4) (dig_lt b4) h
+  obtain ⟨h, d3⟩ := digit3 (dig_lt a3) (dig_lt b3) h
+  obtain ⟨d1, d2⟩ := digit3 (dig_lt a2) (dig_lt b2) h
+  exact Op.ext' (dig_inj a1 b1 d1) (dig_inj a2 b2 d2) (dig_inj a3 b3 d3) (dig_inj a4 b4 d4) (dig_inj a5 b5 d5)
+    (dig_inj a6 b6 d6) (dig_inj a7 b7 d7) (dig_inj a8 b8 d8) (dig_inj a9 b9 d9)
+    (toNat_inj p1 p1' e1) (toNat_inj p2 p2' e2) (toNat_inj p3 p3' e3)
+
+/-- the operation with the same rotation and zero translation -/
+def rotOnly (a : Op) : Op := { a with t1 := 0, t2 := 0, t3 := 0 }
+
+theorem rotKey_inj {a b : Op} (ha : EntriesOk a) (hb : EntriesOk b) (h : rotKey a = rotKey b) : RotEq a b := by
+  have := key_inj (a := rotOnly a) (b := rotOnly b) ha hb (by simp [Reduced, rotOnly]) (by simp [Reduced, rotOnly]) h
+  have h2 : RotEq (rotOnly a) (rotOnly b) := this ▸ RotEq.refl _
+  exact h2
+
+theorem rotKey_congr {a b : Op} (h : RotEq a b) : rotKey a = rotKey b := by
+  simp only [rotKey, key, RotEq] at *
+  obtain ⟨h1, h2, h3, h4, h5, h6, h7, h8, h9⟩ := h
+  rw [h1, h2, h3, h4, h5, h6, h7, h8, h9]
+
+/-! ### meaning of `preserves` -/
+
+/-- the bilinear form `xᵀ G y` of a symmetric matrix given by six numbers, written out -/
+def quad (x1 x2 x3 y1 y2 y3 : Int) (g : Sym6) : Int :=
+  x1 * g.g11 * y1 + x1 * g.g12 * y2 + x1 * g.g13 * y3 + x2 * g.g12 * y1 + x2 * g.g22 * y2 + x2 * g.g23 * y3 +
+    x3 * g.g13 * y1 + x3 * g.g23 * y2 + x3 * g.g33 * y3
+
+/-- `RᵀGR = G`, the nine integer equations (entry `(i,j)`: column `i` of `R` against column `j` through `G`) -/
+def Preserves (a : Op) (g : Sym6) : Prop :=
+  quad a.r11 a.r21 a.r31 a.r11 a.r21 a.r31 g = g.g11 ∧
+  quad a.r11 a.r21 a.r31 a.r12 a.r22 a.r32 g = g.g12 ∧
+  quad a.r11 a.r21 a.r31 a.r13 a.r23 a.r33 g = g.g13 ∧
+  quad a.r12 a.r22 a.r32 a.r11 a.r21 a.r31 g = g.g12 ∧
+  quad a.r12 a.r22 a.r32 a.r12 a.r22 a.r32 g = g.g22 ∧
+  quad a.r12 a.r22 a.r32 a.r13 a.r23 a.r33 g = g.g23 ∧
+  quad a.r13 a.r23 a.r33 a.r11 a.r21 a.r31 g = g.g13 ∧
+  quad a.r13 a.r23 a.r33 a.r12 a.r22 a.r32 g = g.g23 ∧
+  quad a.r13 a.r23 a.r33 a.r13 a.r23 a.r33 g = g.g33
+
+theorem preserves_iff (a : Op) (g : Sym6) : preserves a g = true ↔ Preserves a g := by
+  simp [preserves, Preserves, quad, List.range, List.range.loop, List.foldl, List.all, and_assoc]
+
+theorem Preserves.congr {a u : Op} {g : Sym6} (h : RotEq a u) (hu : Preserves u g) : Preserves a g := by
+  obtain ⟨h1, h2, h3, h4, h5, h6, h7, h8, h9⟩ := h
+  simp only [Preserves, h1, h2, h3, h4, h5, h6, h7, h8, h9] at *
+  exact hu
+
+/-! ### `dedup`, `laueSystemOk` -/
+
+theorem mem_dedup {x : Nat} : ∀ {l : List Nat}, x ∈ dedup l ↔ x ∈ l
+  | [] => by simp [dedup]
+  | y :: l => by
+    by_cases h : l.contains y = true
+    · have hy : y ∈ l := by simpa using h
+      simp only [dedup, h, if_true, List.mem_cons, mem_dedup (l := l)]
+      constructor
+      · exact Or.inr
+      · rintro (rfl | h')
+        · exact hy
+        · exact h'
+    · simp only [dedup, h, Bool.false_eq_true, if_false, List.mem_cons]
+      rw [mem_dedup (l := l)]
+
+theorem dedup_nodup : ∀ (l : List Nat), (dedup l).Nodup
+  | [] => by simp [dedup]
+  | y :: l => by
+    by_cases h : l.contains y = true
+    · simp only [dedup, h, if_true]; exact dedup_nodup l
+    · have hy : y ∉ l := by simpa using h
+      simp only [dedup, h]
+      simp only [Bool.false_eq_true, if_false, List.nodup_cons]
+      exact ⟨fun hm => hy (mem_dedup.1 hm), dedup_nodup l⟩
+
+/-- the admissible (crystal system, Laue class) pairs -/
+theorem laueSystemOk_iff (l cs : String) : laueSystemOk l cs = true ↔
+    (cs = "triclinic" ∧ l = "-1") ∨ (cs = "monoclinic" ∧ l = "2/m") ∨ (cs = "orthorhombic" ∧ l = "mmm") ∨
+    (cs = "tetragonal" ∧ (l = "4/m" ∨ l = "4/mmm")) ∨
+    (cs = "trigonal" ∧ (l = "-3" ∨ l = "-3m" ∨ l = "-3m1" ∨ l = "-31m")) ∨
+    (cs = "hexagonal" ∧ (l = "6/m" ∨ l = "6/mmm")) ∨ (cs = "cubic" ∧ (l = "m-3" ∨ l = "m-3m")) := by
+  unfold laueSystemOk
+  by_cases h1 : cs = "triclinic"
+  · subst h1; simp
+  by_cases h2 : cs = "monoclinic"
+  · subst h2; simp
+  by_cases h3 : cs = "orthorhombic"
+  · subst h3; simp
+  by_cases h4 : cs = "tetragonal"
+  · subst h4; simp
+  by_cases h5 : cs = "trigonal"
+  · subst h5; simp [or_assoc]
+  by_cases h6 : cs = "hexagonal"
+  · subst h6; simp
+  by_cases h7 : cs = "cubic"
+  · subst h7; simp
+  simp [h1, h2, h3, h4, h5, h6, h7]
+
+/-! ### soundness of `checkMeta` and `checkTable` -/
+
+/-- the first `nuniq` operations of the table -/
+def uniqOf (t : SgTable) : List Op := (opsOf t).take t.nuniq
+
+/-- Prop-level reading of `checkMeta` -/
+structure MetaFacts (t : SgTable) : Prop where
+  nuniq_pos : 0 < t.nuniq
+  nuniq_le : t.nuniq ≤ t.nsymop
+  /-- the first `nuniq` rotations are pairwise different -/
+  uniq_distinct : (uniqOf t).Pairwise (fun a b => ¬ RotEq a b)
+  /-- every rotation part occurs (by key) among the first `nuniq` -/
+  uniq_exhaust : ∀ a ∈ opsOf t, ∃ u ∈ uniqOf t, rotKey a = rotKey u
+  /-- `nsymop = nuniq ×` number of operations with identity rotation (the centring translations) -/
+  nsymop_eq : t.nsymop = t.nuniq * ((opsOf t).filter fun a => rotEq a one).length
+  /-- the number of distinct rotation keys among `{R, -R : R` one of the first `nuniq` rotations`}` is the
+  order of the Laue class (see `mem_dedup`, `dedup_nodup`, `rotKey_inj`, `rotKey_congr`) -/
+  laue_order : (dedup ((uniqOf t).map rotKey ++ (uniqOf t).map fun a => rotKey (negRot a))).length
+      = laueOrder t.laue
+  /-- Laue class and crystal system are compatible (see `laueSystemOk_iff`) -/
+  laue_system : laueSystemOk t.laue t.crystalSystem = true
+  syscond_len : t.syscond.length = 26
+  basis_ne : metricBasis t.crystalSystem t.cellChoice ≠ []
+  /-- the first `nuniq` rotations preserve every basis metric of the crystal system / setting -/
+  metric : ∀ a ∈ uniqOf t, ∀ g ∈ metricBasis t.crystalSystem t.cellChoice, Preserves a g
+
+theorem checkMeta_sound (t : SgTable) (h : checkMeta t = true) : MetaFacts t := by
+  simp only [checkMeta, Bool.and_eq_true, decide_eq_true_eq, beq_iff_eq] at h
+  obtain ⟨⟨⟨⟨⟨⟨⟨⟨⟨h1, h2⟩, h3⟩, h4⟩, h5⟩, h6⟩, h7⟩, h8⟩, h9⟩, h10⟩ := h
+  refine ⟨h1, h2, ?_, ?_, h5, h6, h7, h8, ?_, ?_⟩
+  · exact (pairwiseNe_map_pairwise rotKey _ h3).imp (fun hne e => hne (rotKey_congr e))
+  · intro a ha
+    simp only [List.all_eq_true, List.mem_map, List.contains_iff_mem] at h4
+    obtain ⟨u, hu, he⟩ := h4 (rotKey a) ⟨a, ha, rfl⟩
+    exact ⟨u, hu, he.symm⟩
+  · intro hnil
+    rw [hnil] at h9
+    simp at h9
+  · intro a ha g hg
+    simp only [List.all_eq_true] at h10
+    exact (preserves_iff a g).1 (h10 a ha g hg)
+
+/-- everything `checkTable` establishes, with the rotation statements strengthened from keys to the nine
+integers using the `{-1,0,1}` entry bound of `checkGroup` -/
+structure TableFacts (t : SgTable) : Prop where
+  group : IsGroupModLattice (opsOf t)
+  length_eq : (opsOf t).length = t.nsymop
+  snap : ∀ o ∈ t.ops, SnapOk o.t1 ∧ SnapOk o.t2 ∧ SnapOk o.t3
+  entries : ∀ a ∈ opsOf t, EntriesOk a
+  metaFacts : MetaFacts t
+  /-- every operation's rotation is one of the first `nuniq` rotations -/
+  rot_among_uniq : ∀ a ∈ opsOf t, ∃ u ∈ uniqOf t, RotEq a u
+  /-- every operation preserves every basis metric of the crystal system / setting -/
+  metric_all : ∀ a ∈ opsOf t, ∀ g ∈ metricBasis t.crystalSystem t.cellChoice, Preserves a g
+
+theorem checkTable_sound (t : SgTable) (c : Cert) (h : checkTable t c = true) : TableFacts t := by
+  simp only [checkTable, Bool.and_eq_true] at h
+  obtain ⟨hg, hm⟩ := checkGroup_sound t c h.1
+  obtain ⟨hlen, hsnap, hent⟩ := hm
+  have hmeta := checkMeta_sound t h.2
+  have hrot : ∀ a ∈ opsOf t, ∃ u ∈ uniqOf t, RotEq a u := by
+    intro a ha
+    obtain ⟨u, hu, he⟩ := hmeta.uniq_exhaust a ha
+    exact ⟨u, hu, rotKey_inj (hent a ha) (hent u (List.mem_of_mem_take hu)) he⟩
+  refine ⟨hg, hlen, hsnap, hent, hmeta, hrot, ?_⟩
+  intro a ha g hgm
+  obtain ⟨u, hu, he⟩ := hrot a ha
+  exact (hmeta.metric u hu g hgm).congr he
+
 end Sg
